@@ -1092,6 +1092,17 @@ impl<'a, 'b, 'ast> Visit<'ast> for Collector<'a, 'b> {
                     self.edits.push((sp.start, sp.end, text));
                 } }
             }
+            Expr::MethodCall(c) if rw.for_iter && c.method == "map" && c.args.len() == 1 && matches!(&*c.receiver, Expr::Array(_)) && matches!(&c.args[0], Expr::Closure(cl) if cl.inputs.len() == 1 && matches!(&cl.inputs[0], syn::Pat::Ident(_))) => {
+                // R38 (option for_iter=1): `[a, b, ..].map(|x| E)` on an array literal -> `[{ let x = a; E }, { let x = b; E }, ..]`
+                //   (array::map applies the closure to the elements in order; the closure captures nothing mutably)
+                if let (Expr::Array(arr), Expr::Closure(cl)) = (&*c.receiver, &c.args[0]) { if let syn::Pat::Ident(pi) = &cl.inputs[0] {
+                    let body = rw.render_expr(&cl.body);
+                    let items: Vec<String> = arr.elems.iter().map(|a| format!("{{ let {} = {}; {} }}", pi.ident, rw.render_expr(a), body)).collect();
+                    rw.count("R38");
+                    let sp = e.span().byte_range();
+                    self.edits.push((sp.start, sp.end, format!("[{}]", items.join(", "))));
+                } }
+            }
             Expr::MethodCall(c) if rw.for_iter && c.method == "then" && c.args.len() == 1 && matches!(&c.args[0], Expr::Closure(cl) if cl.inputs.is_empty()) => {
                 // R26 (option for_iter=1): `b.then(|| E)` -> `if b { Some(E) } else { None }`  (bool::then, by definition)
                 if let Expr::Closure(cl) = &c.args[0] {
